@@ -10,6 +10,7 @@
 import SnowProofs.Lemmas.Snowing2D
 import SnowProofs.Lemmas.Stencil1D
 import SnowProofs.Lemmas.RunBounds
+import SnowProofs.Props.C02
 import Mathlib.Tactic.NormNum
 import Mathlib.Tactic.Positivity
 
@@ -100,6 +101,43 @@ theorem bounds0D_solid (q : SnowIn ℝ) (i : Nat) (s : Solid0D ℝ) (Tsh lo hi X
   rw [e]
   apply relax_bounds _ _ _ _ _ (by positivity) _ hT hS
   rw [div_le_one hXpos]; exact hθ
+
+/-- **`bounds0D_solid` with state-independent hypotheses** (audit L6): with `c_p,i ≤ c_p,w` the mixture
+heat capacity is at least `c_lo = c_p,s w_s + c_p,i (1 − w_s)` for every ice fraction
+`0 ≤ w ≤ 1 − w_s` (`ice_range_0D`), the latent term is non-negative, so `0 < X` and the step
+condition follow from `0.1·A·K ≤ c_lo·ρ·V` — a condition on the inputs only. -/
+theorem bounds0D_solid_static (q : SnowIn ℝ) (i : Nat) (s : Solid0D ℝ) (Tsh lo hi : ℝ)
+    (hcs : 0 < q.const.cp_s) (hci : 0 < q.const.cp_i) (hciw : q.const.cp_i ≤ q.const.cp_w)
+    (hws0 : 0 < q.const.mass_solute / q.const.mass) (hws1 : q.const.mass_solute / q.const.mass < 1)
+    (hw : 0 ≤ s.w ∧ s.w ≤ 1 - q.const.mass_solute / q.const.mass)
+    (hrV : 0 < q.const.rho_l * q.const.V)
+    (hL : 0 ≤ q.const.Dh * q.const.k_f * q.const.mass_solute / q.const.M_s)
+    (hnum : 0 ≤ q.const.A * q.Kshelf)
+    (hθ : (1 / 10 : ℝ) * (q.const.A * q.Kshelf)
+        ≤ (q.const.cp_s * (q.const.mass_solute / q.const.mass)
+            + q.const.cp_i * (1 - q.const.mass_solute / q.const.mass)) * (q.const.rho_l * q.const.V))
+    (hT : lo ≤ s.T ∧ s.T ≤ hi) (hS : lo ≤ Tsh ∧ Tsh ≤ hi) :
+    lo ≤ (solidStep0D q i s Tsh).T ∧ (solidStep0D q i s Tsh).T ≤ hi := by
+  set ws := q.const.mass_solute / q.const.mass with hws
+  have hcp : q.const.cp_s * ws + q.const.cp_i * (1 - ws)
+      ≤ q.const.cp_s * ws + q.const.cp_i * s.w + q.const.cp_w * (1 - ws - s.w) := by
+    have : 0 ≤ (q.const.cp_w - q.const.cp_i) * (1 - ws - s.w) :=
+      mul_nonneg (by linarith) (by linarith [hw.2])
+    nlinarith
+  have hlo : 0 < q.const.cp_s * ws + q.const.cp_i * (1 - ws) := by
+    have : 0 < 1 - ws := by linarith
+    positivity
+  have hlat : 0 ≤ (q.const.Dh * q.const.k_f * q.const.mass_solute / q.const.M_s)
+      * (1 / ((q.T_m - s.T) * (q.T_m - s.T))) :=
+    mul_nonneg hL (by rw [one_div]; exact inv_nonneg.mpr (mul_self_nonneg _))
+  have hXge : (q.const.cp_s * ws + q.const.cp_i * (1 - ws)) * (q.const.rho_l * q.const.V)
+      ≤ (q.const.cp_s * ws + q.const.cp_i * s.w + q.const.cp_w * (1 - ws - s.w)) * q.const.rho_l * q.const.V
+        + (q.const.Dh * q.const.k_f * q.const.mass_solute / q.const.M_s)
+          * (1 / ((q.T_m - s.T) * (q.T_m - s.T))) := by
+    have := mul_le_mul_of_nonneg_right hcp (le_of_lt hrV)
+    nlinarith
+  exact bounds0D_solid q i s Tsh lo hi _ rfl (lt_of_lt_of_le (mul_pos hlo hrV) hXge) hnum
+    (le_trans hθ hXge) hT hS
 
 /-- a ghost value `T + B·(S − T)` with Biot number `B ∈ [0,1]` lies between `T` and `S` -/
 theorem ghost_bounds (T S B lo hi : ℝ) (hB : 0 ≤ B ∧ B ≤ 1)
@@ -459,6 +497,86 @@ theorem bounds0D_run_coldest (q : SnowIn ℝ) (shelf : List ℝ) (K : Nat) (hK :
     ⟨le_trans (hanti 0 (by omega) (by omega)) (htop 0 (by omega) (by omega)), le_refl _⟩
     (fun j hj hjK => ⟨hanti j hj hjK, htop j hj hjK⟩) K hK (le_refl _)
 
+/-- flat interval bound for 1D fields -/
+def Bdd1 (lo hi : ℝ) (T : Array ℝ) : Prop := ∀ j, j < T.size → lo ≤ aget T j ∧ aget T j ≤ hi
+
+/-- one cooling step of the 1D model keeps the field inside `[lo, hi]` (shelf configuration:
+`p.visf = none`), `0 ≤ fo ≤ 1/2`, Biot number `K_shelf·dz/λ ∈ [0,1]` -/
+theorem coolField1D_bdd (p : SnowIn ℝ) (g : Grid1D ℝ) (hv : p.visf = none) (i : Nat) (T : Array ℝ) (Tsh lo hi : ℝ)
+    (hsz : T.size = g.Nz) (hNz : 2 ≤ g.Nz) (hfo : 0 ≤ g.fo ∧ g.fo ≤ 1 / 2)
+    (hbi : 0 ≤ p.Kshelf * g.dz / g.lam0 ∧ p.Kshelf * g.dz / g.lam0 ≤ 1)
+    (hB : Bdd1 lo hi T) (hS : lo ≤ Tsh ∧ Tsh ≤ hi) :
+    Bdd1 lo hi (coolField1D p g i T Tsh) ∧ (coolField1D p g i T Tsh).size = g.Nz := by
+  have hsize : (coolField1D p g i T Tsh).size = g.Nz := by
+    unfold coolField1D; rw [coolStencil_size]; exact hsz
+  refine ⟨?_, hsize⟩
+  intro j hj
+  rw [hsize] at hj
+  have hjT : j < T.size := by omega
+  rw [coolField1D_get p g i T Tsh (by omega) j hjT, qEvap_none p _ _ _ hv, hsz]
+  have h0 := hB 0 (by omega)
+  have hN := hB (g.Nz - 1) (by omega)
+  apply maxprinciple1D_cool g.Nz hNz g.fo _ _ lo hi (aget T) hfo.1 hfo.2
+    (fun k hk => hB k (by omega)) _ _ j hj
+  · have e : aget T 0 + p.Kshelf * (Tsh - aget T 0) * g.dz / g.lam0
+        = aget T 0 + (p.Kshelf * g.dz / g.lam0) * (Tsh - aget T 0) := by ring
+    rw [e]; exact ghost_bounds _ _ _ lo hi hbi h0 hS
+  · simpa using hN
+
+/-- **`maxprinciple1D_cool_run`** — 1D model, shelf configuration, whole cooling loop: if the initial
+temperature and all shelf temperatures applied up to step `K` lie in `[lo, hi]`, every node of the
+field does after every cooling step `k ≤ K`. -/
+theorem maxprinciple1D_cool_run (p : SnowIn ℝ) (g : Grid1D ℝ) (stride : Nat) (hv : p.visf = none)
+    (hNz : 2 ≤ g.Nz) (hfo : 0 ≤ g.fo ∧ g.fo ≤ 1 / 2)
+    (hbi : 0 ≤ p.Kshelf * g.dz / g.lam0 ∧ p.Kshelf * g.dz / g.lam0 ≤ 1)
+    (shelf : List ℝ) (lo hi : ℝ) (K : Nat) (h0 : lo ≤ p.T_0 ∧ p.T_0 ≤ hi)
+    (hsh : ∀ j (hj : j < shelf.length), j ≤ K → lo ≤ shelf[j] ∧ shelf[j] ≤ hi)
+    (k : Nat) (hk : k < shelf.length) (hkK : k ≤ K) :
+    Bdd1 lo hi (stateAt (coolStep1D p g stride) shelf (coolInit1D p g) k).T := by
+  have h := stateAt_inv (coolStep1D p g stride)
+    (fun i s => i ≤ K + 1 → Bdd1 lo hi s.T ∧ s.T.size = g.Nz) shelf (coolInit1D p g)
+    (fun _ => by
+      constructor
+      · intro j hj
+        have hj' : j < g.Nz := by simpa [coolInit1D] using hj
+        simp only [coolInit1D, Snow.aget_replicate _ _ j hj', zero_real, zero_add]
+        exact h0
+      · simp [coolInit1D])
+    (fun j hj s hs hle => by
+      have hsj := hs (by omega)
+      have := coolField1D_bdd p g hv j s.T (shelf[j]) lo hi hsj.2 hNz hfo hbi hsj.1 (hsh j hj (by omega))
+      simpa [coolStep1D] using this)
+    k hk
+  exact (h (by omega)).1
+
+/-- **`cfl_from_code_1D` for the model's grid**: `grid1D.fo = 0.4·α/α_max`, so `0 ≤ fo ≤ 1/2`
+whenever `0 ≤ α ≤ 1.25·α_max` -/
+theorem grid1D_fo_le_half (p : SnowIn ℝ) (Nz : Nat)
+    (hdz : (grid1D p Nz).dz ≠ 0)
+    (hmax : 0 < p.const.lambda_i / (p.const.cp_i * p.const.rho_l))
+    (hα0 : 0 ≤ (grid1D p Nz).lam0 / (p.const.cp_solution * p.const.rho_l))
+    (hα : (grid1D p Nz).lam0 / (p.const.cp_solution * p.const.rho_l)
+        ≤ (5 / 4) * (p.const.lambda_i / (p.const.cp_i * p.const.rho_l))) :
+    0 ≤ (grid1D p Nz).fo ∧ (grid1D p Nz).fo ≤ 1 / 2 := by
+  have e : (grid1D p Nz).fo = (4 / 10) * ((grid1D p Nz).lam0 / (p.const.cp_solution * p.const.rho_l))
+      / (p.const.lambda_i / (p.const.cp_i * p.const.rho_l)) := by
+    have hd : (grid1D p Nz).dz * (grid1D p Nz).dz ≠ 0 := mul_ne_zero hdz hdz
+    have hm := ne_of_gt hmax
+    have hdt : (grid1D p Nz).dt = (4 / 10) * ((grid1D p Nz).dz * (grid1D p Nz).dz)
+        / (p.const.lambda_i / (p.const.cp_i * p.const.rho_l)) := by
+      show lit 4 1 * _ / _ = _
+      rw [lit_real]; norm_num
+      simp [grid1D]
+    rw [grid1D_fo, hdt]
+    generalize (grid1D p Nz).dz * (grid1D p Nz).dz = D at hd ⊢
+    generalize (grid1D p Nz).lam0 / (p.const.cp_solution * p.const.rho_l) = al
+    generalize p.const.lambda_i / (p.const.cp_i * p.const.rho_l) = M at hm ⊢
+    field_simp
+  rw [e]
+  constructor
+  · positivity
+  · rw [div_le_iff₀ hmax]; linarith
+
 /-- the state-independent part of the hypotheses of the 2D sweep theorems -/
 structure StabCtx (c : Ctx ℝ) : Prop where
   l2 : c.l2 = 2
@@ -609,12 +727,14 @@ theorem liquidus_relation (c : Ctx ℝ) (h : SolOK c) (t : ℝ) (hice : 0 < iceF
   simp only [hsc, if_true, iceMass]
   field_simp
 
-/-- no ice is reported before nucleation: every cooling-stage row stores the zero field
-(`cooling_ice_results[i_save] = 0 * T_k`) — by construction of `coolLoop`, which pushes
-`zeros`; stated for the row that is pushed. -/
-theorem no_ice_before_nucleation (n : Nat) (x : Nat) :
-    rd1 (Array.replicate n (Num.zero : ℝ)) x = 0 := by
-  simp [rd1, Array.getD]
+/-- **`no_ice_before_nucleation`** — statements about the rows the models actually write before
+nucleation (proved by induction over the cooling loops in `Lemmas/RunBounds.lean`):
+2D: in a completed `S2D.run`, every reported ice row with index `< iSaveEnd` is identically 0;
+1D: the same for the histories published by `run1DOn`; 0D: the reported ice fraction is 0 at every
+index before the nucleation step. -/
+alias no_ice_before_nucleation_2D := RunBounds.no_ice_before_nucleation_2D
+alias no_ice_before_nucleation_1D := RunBounds.no_ice_before_nucleation_1D
+alias no_ice_before_nucleation_0D := RunBounds.no_ice_before_nucleation_0D
 
 /-! ### solidification stage (partial) -/
 
@@ -706,6 +826,112 @@ theorem solid_weights_nonneg (lw li kc kU kL kO kI dz dr rj : ℝ) (hlw : 0 < lw
         apply div_nonneg _ (by positivity); linarith [hc.1, hO.2, hI.1]
       linarith [e4]
 
+/-! ### the relations between the derived constants, and the other ice formulas -/
+
+/-- **named hypothesis `DerivedOK`** — the relations `constants.calculateDerived` establishes between
+the entries of `Snowing.const` (C19 proves them for the generated code: `derived_*`):
+`mass_solute = mass·w_s`, `mass_water = mass·(1−w_s)`,
+`depression = k_f/M_s · w_s/(1−w_s)`, with `0 < w_s < 1`, `mass > 0`, `k_f/M_s > 0`. -/
+structure DerivedOK (p : Par ℝ) : Prop where
+  ws0 : 0 < p.solid_fraction
+  ws1 : p.solid_fraction < 1
+  mass : 0 < p.mass
+  ms : p.mass_solute = p.mass * p.solid_fraction
+  mw : p.mass_water = p.mass * (1 - p.solid_fraction)
+  kap : 0 < p.k_f / p.M_s
+  dep : p.depression = p.k_f / p.M_s * (p.solid_fraction / (1 - p.solid_fraction))
+
+/-- the undisclosed hypothesis of the earlier version, now derived: `depression = k_f/M_s·m_s/m_w` -/
+theorem DerivedOK.hdep {p : Par ℝ} (h : DerivedOK p) :
+    p.depression = p.k_f / p.M_s * (p.mass_solute / p.mass_water) := by
+  have h1 : (1 - p.solid_fraction) ≠ 0 := by have := h.ws1; linarith
+  have hm := ne_of_gt h.mass
+  rw [h.dep, h.ms, h.mw]
+  field_simp
+
+theorem DerivedOK.mw_pos {p : Par ℝ} (h : DerivedOK p) : 0 < p.mass_water := by
+  rw [h.mw]; have := h.ws1; have := h.mass; positivity
+theorem DerivedOK.ms_pos {p : Par ℝ} (h : DerivedOK p) : 0 < p.mass_solute := by
+  rw [h.ms]; have := h.ws0; have := h.mass; positivity
+theorem DerivedOK.mass_eq {p : Par ℝ} (h : DerivedOK p) : p.mass_water + p.mass_solute = p.mass := by
+  rw [h.mw, h.ms]; ring
+
+/-- `SolOK` follows from the derived-constant relations -/
+theorem solOK_of_derived (p : Par ℝ) (f : Flags) (h : DerivedOK p) : SolOK (mkCtx p f) :=
+  { mw := h.mw_pos, ms := h.ms_pos, kap := h.kap,
+    liq := by
+      show TeqL p = Tm p - p.k_f / p.M_s * (p.mass_solute / p.mass_water)
+      rw [← h.hdep]; rfl }
+
+/-- `C02.nucleation_adiabatic` under `DerivedOK`, and the **bound of the nucleation jump**: a
+supercooled node ends strictly between its old temperature and the equilibrium freezing
+temperature, with `0 < m_i < m_w`; other nodes are untouched (`C02.nucleation_untouched`). -/
+theorem nucleation_jump_bounds (p : Par ℝ) (h : DerivedOK p) (hcp : 0 < p.cp_solution) (hDh : 0 < p.Dh)
+    (Tn : ℝ) (hsc : Tn < TeqL p) :
+    Tn < nucRoot p (Tm p) Tn ∧ nucRoot p (Tm p) Tn < TeqL p
+      ∧ 0 < iceMass p (Tm p) (nucRoot p (Tm p) Tn) ∧ iceMass p (Tm p) (nucRoot p (Tm p) Tn) < p.mass_water :=
+  (C02.nucleation_adiabatic p Tn hcp h.mass hDh h.mw_pos h.ms_pos h.kap h.hdep hsc).2
+
+/-- **2D nucleation row**: the ice fraction written right after nucleation is in range, is zero
+exactly at the nodes that were not supercooled, and lies on the liquidus of the NEW temperature -/
+theorem ice_range_nucleation_row (p : Par ℝ) (f : Flags) (h : DerivedOK p) (hcp : 0 < p.cp_solution)
+    (hDh : 0 < p.Dh) (Tn : ℝ) :
+    0 ≤ (nucNode (mkCtx p f) Tn).2 ∧ (nucNode (mkCtx p f) Tn).2 < p.mass_water / (p.mass_water + p.mass_solute)
+      ∧ (0 < (nucNode (mkCtx p f) Tn).2 ↔ Tn < TeqL p)
+      ∧ (nucNode (mkCtx p f) Tn).2 = iceFracNode (mkCtx p f) (nucNode (mkCtx p f) Tn).1 := by
+  have hM : 0 < p.mass_water + p.mass_solute := by have := h.mw_pos; have := h.ms_pos; linarith
+  have hTl : (mkCtx p f).TeqL = TeqL p := rfl
+  have hTm : (mkCtx p f).Tm = Tm p := rfl
+  have hp : (mkCtx p f).p = p := rfl
+  by_cases hsc : Tn < TeqL p
+  · have hb := nucleation_jump_bounds p h hcp hDh Tn hsc
+    have hn : nucNode (mkCtx p f) Tn
+        = (nucRoot p (Tm p) Tn, iceMass p (Tm p) (nucRoot p (Tm p) Tn) / (p.mass_water + p.mass_solute)) := by
+      simp [nucNode, hTl, hTm, hp, hsc]
+    rw [hn]
+    refine ⟨le_of_lt (div_pos hb.2.2.1 hM), div_lt_div_of_pos_right hb.2.2.2 hM,
+      ⟨fun _ => hsc, fun _ => div_pos hb.2.2.1 hM⟩, ?_⟩
+    simp [iceFracNode, hTl, hTm, hp, hb.2.1]
+  · have hn : nucNode (mkCtx p f) Tn = (Tn, 0) := C02.nucleation_untouched _ _ (by rw [hTl]; exact hsc)
+    rw [hn]
+    refine ⟨le_refl 0, div_pos h.mw_pos hM, ⟨fun h0 => absurd h0 (lt_irrefl 0), fun h0 => absurd h0 hsc⟩, ?_⟩
+    simp [iceFracNode, hTl, hsc]
+
+/-- **1D ice formulas** (`solidStep1D`: `m_ice/mass` with the mask as a number; the same
+expression divided by `m_w + m_s` in the nucleation row): equal to the 2D node formula when
+`mass = m_w + m_s` (`DerivedOK.mass_eq`), hence `ice_range` / `liquidus_relation` apply. -/
+theorem ice1D_eq_node (q : SnowIn ℝ) (t den : ℝ) :
+    ((Num.zero : ℝ) * maskNum (!decide (t < q.T_eq_l)) + iceMassEq q t * maskNum (decide (t < q.T_eq_l))) / den
+      = (if t < q.T_eq_l then iceMassEq q t else 0) / den := by
+  by_cases h : t < q.T_eq_l <;> simp [maskNum, h]
+
+/-- **0D ice formula** (`iceFrac0D`, no mask): it IS the liquidus expression; it is in range at
+every temperature below the equilibrium freezing temperature (for the 0D model this is a
+condition on the state: after nucleation `T < T_eq_l` is evaluated on runs, not proved) -/
+theorem ice_range_0D (q : SnowIn ℝ) (T : ℝ) (hmass : 0 < q.const.mass) (hmw : 0 < q.const.mass_water)
+    (hms : 0 < q.const.mass_solute) (hk : 0 < q.const.k_f / q.const.M_s)
+    (hdep : q.const.depression = q.const.k_f / q.const.M_s * (q.const.mass_solute / q.const.mass_water))
+    (hT : T < q.T_eq_l) :
+    iceFrac0D q T * q.const.mass
+        = q.const.mass_water - (q.const.k_f * q.const.mass_solute / q.const.M_s) / (q.T_m - T)
+      ∧ 0 < iceFrac0D q T ∧ iceFrac0D q T < q.const.mass_water / q.const.mass := by
+  have hx : q.const.k_f / q.const.M_s * (q.const.mass_solute / q.const.mass_water) < q.T_m - T := by
+    have : q.T_eq_l = q.T_m - q.const.depression := rfl
+    rw [this, hdep] at hT; linarith
+  have hδ : 0 < q.const.k_f / q.const.M_s * (q.const.mass_solute / q.const.mass_water) := by positivity
+  have hxpos : 0 < q.T_m - T := by linarith
+  have e : q.const.k_f * q.const.mass_solute / q.const.M_s
+      = q.const.mass_water * (q.const.k_f / q.const.M_s * (q.const.mass_solute / q.const.mass_water)) := by
+    field_simp
+  have hlt : (q.const.k_f * q.const.mass_solute / q.const.M_s) / (q.T_m - T) < q.const.mass_water := by
+    rw [div_lt_iff₀ hxpos, e]; nlinarith
+  have hpos : 0 < (q.const.k_f * q.const.mass_solute / q.const.M_s) / (q.T_m - T) := by
+    rw [e]; positivity
+  refine ⟨?_, ?_, ?_⟩
+  · simp only [iceFrac0D]; field_simp
+  · simp only [iceFrac0D]; apply div_pos _ hmass; linarith
+  · simp only [iceFrac0D]; apply div_lt_div_of_pos_right _ hmass; linarith
+
 /-! ### the code's radial grid satisfies `r_j ≥ dr/2` -/
 
 /-- `r = np.linspace(0, R, Nr)` and `dr = R/Nr`: for `j ≥ 1`, `r_j ≥ dr/2` (indeed `r_j ≥ dr`) -/
@@ -738,10 +964,67 @@ theorem r_ge_half_dr (p : Par ℝ) (f : Flags) (hR : 0 < radius p) (hNr : 2 ≤ 
 
 /-! ### non-vacuity -/
 
-/-- the stability hypotheses hold for a concrete grid: `dz = dr = 1/3000` (the default
-10 mm × 10 mm vial), `a = 10⁻⁸ m²` per step, Biot numbers 0.03 and 0.5 -/
-theorem nonvacuous : Stab (1 / 100000000) (1 / 3000) (1 / 3000) (3 / 100) (1 / 2) := by
-  refine ⟨by norm_num, by norm_num, by norm_num, by norm_num, ⟨by norm_num, by norm_num⟩,
-    ⟨by norm_num, by norm_num⟩⟩
+/-- the default configuration: 10 mm × 10 mm vial, 5 % sucrose, `K_shelf = 50`, jacket with a
+1 mm air gap (constants as `calculateDerived` produces them) -/
+noncomputable def pDef : Par ℝ :=
+  { Nz := 30, Nr := 15, pi := 3.141592653589793, height := 0.01, diameter := 0.01, V := 0.000001,
+    rho_l := 1000, mass := 0.001, mass_water := 0.001 * (1 - 0.05), mass_solute := 0.001 * 0.05,
+    lambda_w := 0.598, lambda_i := 2.25, lambda_s := 0.126, cp_w := 4187, cp_i := 2108, cp_s := 1240,
+    cp_solution := 0.05 * 1240 + (1 - 0.05) * 4187, solid_fraction := 0.05, T_eq := 0, k_f := 1.853,
+    M_s := 0.3423, depression := 1.853 / 0.3423 * (0.05 / (1 - 0.05)), kb := 1e-29, b := 29.3,
+    k_B := 1.38e-23, Dh := 333550, K_shelf := 50, config := Config.jacket,
+    p_vac := 100, kappa := 0.01, dHe := 2500900, m_water := 2.99e-26, t_vac_start := 0.75,
+    t_vac_duration := 0.1, air_gap := 0.001, lambda_air := 0.025 }
+
+/-- the relations between the derived constants hold for the default configuration -/
+theorem derivedOK_pDef : DerivedOK pDef := by
+  refine ⟨?_, ?_, ?_, ?_, ?_, ?_, ?_⟩ <;> simp only [pDef] <;> norm_num
+
+/-- the stability hypotheses of the sweep- and run-level theorems hold for the default
+configuration (current and repaired flags alike) -/
+theorem stabCtx_pDef (f : Flags) : StabCtx (mkCtx pDef f) := by
+  have hR : 0 < radius pDef := by simp only [radius, pDef, two, ofNat'_real]; norm_num
+  have hdz : (mkCtx pDef f).dz = 1 / 3000 := by
+    simp only [mkCtx, dz, pDef, ofNat'_real]; norm_num
+  have hdr : (mkCtx pDef f).dr = 1 / 3000 := by
+    simp only [mkCtx, dr, radius, pDef, two, ofNat'_real]; norm_num
+  have hk0 : (mkCtx pDef f).k0 = 0.5744 := by
+    simp only [mkCtx, kEff0, pDef, one_real]; norm_num
+  have hdzp : 0 < dz pDef := by have : dz pDef = 1 / 3000 := hdz; rw [this]; norm_num
+  have hdrp : 0 < dr pDef := by have : dr pDef = 1 / 3000 := hdr; rw [this]; norm_num
+  have hmax : 0 < alphaMax pDef := by simp only [alphaMax, pDef]; norm_num
+  have hα : alpha0 pDef ≤ (5 / 4) * alphaMax pDef := by
+    simp only [alpha0, kEff0, alphaMax, pDef, one_real]; norm_num
+  have hα0 : 0 ≤ alpha0 pDef := by simp only [alpha0, kEff0, pDef, one_real]; norm_num
+  have hdt : 0 ≤ dt pDef := by
+    unfold dt; simp only [lit_real]
+    have : 0 < alphaMax pDef := hmax
+    positivity
+  refine ⟨by simp [mkCtx], by simp [mkCtx], by simp [mkCtx, pDef], by simp [mkCtx, pDef], ?_, ?_⟩
+  · refine ⟨mul_nonneg hα0 hdt, hdzp, hdrp, cfl_from_code pDef hdzp hdrp hmax hα, ?_, ?_⟩
+    · rw [hdz, hk0]; simp only [mkCtx, pDef]; norm_num
+    · have hKw : (mkCtx pDef f).Kw = 1 / (1 / 50 + 0.001 / 0.025) := by
+        simp only [mkCtx, Kwall, pDef, one_real]
+      have hes : (mkCtx pDef f).eSp = 1 / 3000 := by
+        have : (mkCtx pDef f).eSp = if f.jacketDz then dz pDef else dr pDef := rfl
+        rw [this]; split
+        · exact hdz
+        · exact hdr
+      rw [hKw, hes, hk0]; norm_num
+  · intro j h1 hj
+    exact r_ge_half_dr pDef f hR (by simp [pDef]) j h1 hj
+
+/-- **non-vacuity**: the named hypotheses of the registered theorems are instantiated on the
+default configuration — `Stab`/`StabCtx` (CFL, both Biot numbers, radial grid), `DerivedOK`,
+hence `SolOK`; and the shelf-programme hypotheses of the run-level theorems on a concrete
+three-sample programme (5, 4, 3 °C, product at 5 °C). -/
+theorem nonvacuous :
+    StabCtx (mkCtx pDef {}) ∧ DerivedOK pDef ∧ SolOK (mkCtx pDef {}) ∧
+    (∀ j (hj : j < [5, 4, (3 : ℝ)].length), j ≤ 2 →
+      (3 : ℝ) + kelvin ≤ [5, 4, (3 : ℝ)][j] + kelvin ∧ [5, 4, (3 : ℝ)][j] + kelvin ≤ 5 + kelvin) :=
+  ⟨stabCtx_pDef {}, derivedOK_pDef, solOK_of_derived pDef {} derivedOK_pDef, by
+    intro j hj _
+    have : j = 0 ∨ j = 1 ∨ j = 2 := by simp at hj; omega
+    rcases this with rfl | rfl | rfl <;> simp <;> norm_num⟩
 
 end Snow.C07
